@@ -48,10 +48,18 @@ Inductive event :=
 | EMatch (re : N) (res : option (list bytes))
                                      (* Match/Smatch: matches[re] = FindStringSubmatch (None = nil) *)
 | ECapref (re : N) (k : nat)         (* Capref: push matches[re][k]; runtime error when absent *)
-| EStrptimeTop (layout : bytes).     (* strptime(<string on the stack>, layout) *)
+| EStrptimeTop (layout : bytes)      (* strptime(<string on the stack>, layout) *)
+(* dimensioned metrics: a slot m stands for one (metric, label tuple); the
+   harness computes the tuple from the line and assigns the slot *)
+| EDel (m : N)                       (* del m[..]: Metric.RemoveDatum; an absent label set is left absent *)
+| EGet (m : N)                       (* dload: Metric.GetDatum; creates the label set (datum 0, time 0) when absent *)
+| EExpire (m : N).                   (* del m[..] after D: Metric.ExpireDatum; runtime error when absent *)
 
-(* a scalar int datum: value and BaseDatum.Time (int64 ns) *)
+(* an int datum: value and BaseDatum.Time (int64 ns) *)
 Record cell := { d_val : Z; d_time : Z }.
+(* the metrics, flat: slot |-> datum.  A slot is a scalar metric (always
+   present) or one label set of a dimensioned metric (present = the label set
+   exists in Metric.LabelValues).  Slots are listed in creation order. *)
 Definition store := list (N * cell).
 
 Fixpoint store_get (m : N) (st : store) : cell :=
@@ -65,9 +73,30 @@ Fixpoint store_set (m : N) (c : cell) (st : store) : store :=
   | (m', c') :: r => if N.eqb m m' then (m, c) :: r else (m', c') :: store_set m c r
   end.
 
+(* the label set exists *)
+Fixpoint store_mem (m : N) (st : store) : bool :=
+  match st with
+  | [] => false
+  | (m', _) :: r => if N.eqb m m' then true else store_mem m r
+  end.
+(* Metric.RemoveDatum: take the label set out; nothing to do when it is absent *)
+Fixpoint store_del (m : N) (st : store) : store :=
+  match st with
+  | [] => []
+  | (m', c') :: r => if N.eqb m m' then r else (m', c') :: store_del m r
+  end.
+(* Metric.GetDatum: find, or append a new zero datum (datum.NewInt: value 0, time 0) *)
+Definition store_touch (m : N) (st : store) : store :=
+  if store_mem m st then st else store_set m {| d_val := 0; d_time := 0 |} st.
+
 (* what a line can change outside the VM: the metrics and the program's
    runtime-error counter (prog_runtime_errors_total) *)
 Record world := { w_store : store; w_errs : N }.
+
+(* label sets removed from OUTSIDE the VM (Store.Gc: expiry, limit ->
+   Metric.RemoveDatum), between two lines *)
+Definition ext_del (ms : list N) (w : world) : world :=
+  {| w_store := fold_left (fun st m => store_del m st) ms (w_store w); w_errs := w_errs w |}.
 
 (* thread.matches: regexp index |-> last FindStringSubmatch result on this line *)
 Definition caps := list (N * option (list bytes)).
@@ -92,6 +121,12 @@ Definition fresh_thread : thread := {| t_time := zero_ns; t_stack := []; t_caps 
 
 (* per-line wall clock *)
 Record line := { l_now : Z; l_year : Z; l_evs : list event }.
+
+(* a history: lines, interleaved with changes of the world that do not go
+   through the VM (any function; ext_del is the one the code base has) *)
+Inductive hstep :=
+| HLine (l : line)
+| HWorld (f : world -> world).
 
 (* Timestamp opcode: t.time.Unix() unless IsZero, then time.Now().Unix() *)
 Definition ts_value (now reg : Z) : Z :=
@@ -180,6 +215,10 @@ Section Model.
                    w_errs := w_errs (s_w s) |};
          s_vm := s_vm s |}.
 
+    (* the metrics change, nothing else *)
+    Definition set_store (st : store) (s : mstate) : mstate :=
+      {| s_th := s_th s; s_w := {| w_store := st; w_errs := w_errs (s_w s) |}; s_vm := s_vm s |}.
+
     Definition set_tables (c : caps) (ss : list bytes) (s : mstate) : mstate :=
       {| s_th := {| t_time := t_time (s_th s); t_stack := t_stack (s_th s); t_caps := c; t_strs := ss |};
          s_w := s_w s; s_vm := s_vm s |}.
@@ -217,6 +256,11 @@ Section Model.
       | EFail => raise s
       | EStop => {| s_th := s_th s; s_w := s_w s;
                     s_vm := {| v_memo := v_memo (s_vm s); v_term := true |} |}
+      | EDel m => set_store (store_del m (w_store (s_w s))) s
+      | EGet m => set_store (store_touch m (w_store (s_w s))) s
+      | EExpire m =>
+          if store_mem m (w_store (s_w s)) then s   (* LabelValue.Expiry is not part of this world *)
+          else raise s                              (* "No datum for given labelvalues" *)
       end.
 
     (* ProcessLogLine's loop: execute, then test terminate *)
@@ -242,6 +286,21 @@ Section Model.
       | [] => []
       | l :: r => let wv' := run_line cfg l wv in fst wv' :: run_trace cfg r wv'
       end.
+
+    (* histories with changes of the world from outside: the VM is not told *)
+    Definition run_hstep (cfg : config) (h : hstep) (wv : world * vmstate) : world * vmstate :=
+      match h with
+      | HLine l => run_line cfg l wv
+      | HWorld f => (f (fst wv), snd wv)
+      end.
+    Definition run_hist (cfg : config) (hs : list hstep) (wv : world * vmstate) : world * vmstate :=
+      fold_left (fun a h => run_hstep cfg h a) hs wv.
+    (* the world after each step, for the correspondence *)
+    Fixpoint run_htrace (cfg : config) (hs : list hstep) (wv : world * vmstate) : list world :=
+      match hs with
+      | [] => []
+      | h :: r => let wv' := run_hstep cfg h wv in fst wv' :: run_htrace cfg r wv'
+      end.
   End Machine.
 
   Definition vm_init_new : vmstate memo_new := {| v_memo := []; v_term := false |}.
@@ -252,6 +311,8 @@ Section Model.
   Definition run_line_new := run_line memo_new strptime_new.
   Definition run_lines_new := run_lines memo_new strptime_new.
   Definition run_trace_new := run_trace memo_new strptime_new.
+  Definition run_hist_new := run_hist memo_new strptime_new.
+  Definition run_htrace_new := run_htrace memo_new strptime_new.
 
   Definition run_line_old := run_line memo_old strptime_old.
   Definition run_lines_old := run_lines memo_old strptime_old.
